@@ -6,6 +6,7 @@ import (
 	"runtime"
 	"strings"
 	"sync"
+	"sync/atomic"
 
 	"github.com/formancehq/ledger/internal/verifhook"
 	"pgregory.net/rapid"
@@ -34,6 +35,9 @@ func loadFineSites(path string) {
 	}
 	_ = json.Unmarshal(b, &fineSiteList)
 }
+
+// runProgress counts finished simulated runs of the process (hang detection in fine-grained mode).
+var runProgress atomic.Int64
 
 var goidTasks sync.Map // goroutine id -> *Task
 
